@@ -19,7 +19,7 @@ PID = "C15"
 
 def _dot_includes(items, r, p):
     for it in items:
-        if it[0] == "include" and it[1] in ("q", "a") and r.random() < p:
+        if it[0] == "include" and it[1] in ("q", "a") and not it[2].startswith("@") and r.random() < p:
             it[2] = "./" + it[2]
         elif it[0] == "cond":
             for br in it[1]:
